@@ -82,6 +82,10 @@ func (s *Signature) Validate() error {
 	if err := s.GetHashType().Validate(); err != nil {
 		return err
 	}
+	// a signature is always over a digest: the unset hash type is not acceptable here.
+	if s.GetHashType() == hash.HashType_HashType_UNKNOWN {
+		return errors.Errorf("hash type unknown: %v", s.GetHashType().String())
+	}
 	if len(s.GetSigData()) == 0 {
 		return ErrSignatureInvalid
 	}
